@@ -98,6 +98,11 @@ int main()
                 std::vector<ob::State *> geo; bool ok = css->discreteGeodesic(a, b, ipol != 0, &geo);
                 std::printf("geo %d |", ok ? 1 : 0);
                 for (auto *s : geo) { for (int i = 0; i < 3; ++i) pbits((*s->as<ob::ConstrainedStateSpace::StateType>())[i]); std::printf(" ;"); css->freeState(s); }
+                // ConstrainedStateSpace::interpolate at fixed fractions (its own geodesic, interpolate = true)
+                std::printf(" | INT");
+                ob::State *r = css->allocState();
+                for (double tt : {0.0, 0.1, 1.0 / 3.0, 0.5, 0.9, 1.0}) { css->interpolate(a, b, tt, r); for (int i = 0; i < 3; ++i) pbits((*r->as<ob::ConstrainedStateSpace::StateType>())[i]); std::printf(" ;"); }
+                css->freeState(r);
                 std::printf("\n"); css->freeState(a); css->freeState(b);
             }
             else if (op == "LAWS" || op == "PLAN")
